@@ -308,9 +308,14 @@ class IndexPage(Page):
     def roots(self, request: object, tag: Tag) -> "Flattenable":
         r = []
         for o in self.system.rootobjects:
-            r.append(tag.clone().fillSlots(root=tags.code(
+            if not o.isVisible:
+                continue
+            root = tag.clone().fillSlots(root=tags.code(
                 linker.taglink(o, self.filename)
-                )))
+                ))
+            if o.isPrivate:
+                root(class_='private')
+            r.append(root)
         return r
 
     @renderer
